@@ -90,7 +90,8 @@ type (
 		account *common.Address
 	}
 	resetObjectChange struct {
-		prev *stateObject
+		account *common.Address
+		prev    *stateObject
 	}
 	suicideChange struct {
 		account     *common.Address
@@ -147,7 +148,9 @@ func (ch resetObjectChange) revert(s *StateDB) {
 }
 
 func (ch resetObjectChange) dirtied() *common.Address {
-	return nil
+	// The account was replaced by a fresh object: it has to be written (or deleted) when the
+	// transaction is finalised even if nothing else touches it.
+	return ch.account
 }
 
 func (ch suicideChange) revert(s *StateDB) {
